@@ -5,7 +5,7 @@ theorems   Cppcheck.RunState.file_findings_independent (for every prefix, file a
            file_result_independent, checkFile_independent, run_eq_map_alone, shown_nonWP_eq_dedup_alone (printed output =
            concatenation of the alone outputs with repeated texts removed), leakOK_after_normal / leakOK_repaired /
            foreignOK_of_cover / supprMatches_exact_file (where the hypotheses come from), four counterexample theorems
-           (one per hypothesis the code violates: F17a, F17b, F17d, F17e)
+           (F17a, F17b, F17e: hypotheses the code violates; F17d: the code before 8f62378, with leaked_filter_repaired for the tree)
 T          lib/cppcheck.cpp, lib/cppcheck.h: the member variables of CppCheckLogger / CppCheck are exactly the carried fields of the
            model; reset points of checkInternal (resetExitCode first, where clear() is called, which returns come before it);
            function-local statics / mutable globals of lib, cli, simplecpp enumerated and compared with the reviewed list
@@ -29,7 +29,7 @@ RULE = ("one case = one generated project (3-6 C files in up to 3 directories, e
         "company; non-trivial = at least 2 files report a finding and at least one inline suppression or shared header exists")
 EXPLANATION = ("Lean: for every run prefix and every per-file analysis function the per-file result (forwarded findings, analyzer "
                "information, exit code) equals the alone result under five executable hypotheses on the carried state; each "
-               "hypothesis is exercised on the real binary (known findings F17a-F17e). The per-file analysis itself is a "
+               "hypothesis is exercised on the real binary (known findings F17a, F17b, F17c, F17e; F17d repaired by 8f62378). The per-file analysis itself is a "
                "parameter: that it is a function of the file (no hidden static state) is only sampled by the CLI tie and "
                "supported by the enumeration of statics. Outside the model: --safety, plist output, --clang (checkClang never "
                "resets the filters), library.reportErrors, whole-program data (mFileInfo, unused functions), markup files, "
@@ -41,14 +41,14 @@ THEOREMS = ["Cppcheck.RunState.file_findings_independent", "Cppcheck.RunState.fi
             "Cppcheck.RunState.supprMatches_exact_file",
             "Cppcheck.RunState.file_findings_independent_counterexample_foreign_suppression",
             "Cppcheck.RunState.file_findings_independent_counterexample_macro_suppression",
-            "Cppcheck.RunState.file_findings_independent_counterexample_leaked_filter",
+            "Cppcheck.RunState.file_findings_independent_counterexample_leaked_filter_before_repair",
+            "Cppcheck.RunState.leaked_filter_repaired",
             "Cppcheck.RunState.file_findings_independent_counterexample_stale_macros"]
 MODULES = ["Cppcheck.Props.C17"]
 
 K_TAIL = "inline-suppression-matches-other-file-by-path-tail"
 K_MACRO = "macro-suppression-applies-to-same-named-macro-of-other-file"
 K_TEXT = "duplicate-filter-key-collision-across-files"
-K_LEAK = "duplicate-filter-not-cleared-after-early-return"
 K_STALE = "location-macros-missing-or-stale-on-cache-replay"
 
 # ids reported after the last file (whole-program / run-level): excluded by the property
@@ -164,11 +164,13 @@ def translate_state(ctx, res):
         start_clear = any(c < first_ret and c < p_try for c in clears)
         end_clear = any(c > p_try_end for c in clears)
         early_returns = len([m for m in re.finditer(r"\breturn\b", b[p_try:p_try_end])])
-        shape_ok = p_reset < first_ret and (start_clear or end_clear) and all(c < p_try or c > p_try_end for c in clears)
+        # model of record (8f62378): clear() right after resetExitCode(), before any return; the old shape (clear() only after the
+        # try block) is an undischarged obligation
+        shape_ok = p_reset < first_ret and start_clear and all(c < p_try or c > p_try_end for c in clears)
         info = dict(clear_at_start=start_clear, clear_at_end=end_clear, returns_inside_try=early_returns)
         res.oblig("translation:checkInternal-reset-points", shape_ok, "translation",
                   "" if shape_ok else "resetExitCode@%d first return@%d clear()@%s try@%d..%d: not the modelled shape "
-                  "(reset before any return; clear() before the try block and/or after it)" % (p_reset, first_ret, clears, p_try, p_try_end))
+                  "(resetExitCode() and clear() before any return - 8f62378; no clear() inside the try block)" % (p_reset, first_ret, clears, p_try, p_try_end))
         ok &= shape_ok
         # setLocationMacros / setRemarkComments are the only writers of the two maps, clear() the only eraser of the filters
         lg, _ = _body(src, src.index("class CppCheck::CppCheckLogger"))
@@ -782,12 +784,10 @@ def bd_checks(ctx, res, variant):
     res.case("bd|leak-witness", True, dict(witness="F17d", company_info=r["comp_info"].get("b.c"), alone_info=r["alone_info"].get("b.c")))
     leaked = r["comp_info"].get("b.c") != r["alone_info"].get("b.c")
     if leaked:
+        # repaired by 8f62378: a reappearance is a violation, not a known finding
         res.violation("warm build dir: the analyzer information written for the re-analysed b.c lacks the header finding when the cached "
                       "a.c (same header) precedes it: company %s, alone %s" % (r["comp_info"].get("b.c"), r["alone_info"].get("b.c")),
-                      dict(files=w1, history="cold run a.c b.c; change b.c; warm run a.c b.c vs warm run b.c"), concrete=True, key=K_LEAK)
-    res.oblig("variant:clear-at-start-agrees-with-witness", leaked == (not variant["clear_at_start"]), "correspondence",
-              "" if leaked == (not variant["clear_at_start"]) else
-              "translator says clear_at_start=%s but the leak witness %s" % (variant["clear_at_start"], "reproduces" if leaked else "does not reproduce"))
+                      dict(files=w1, history="cold run a.c b.c; change b.c; warm run a.c b.c vs warm run b.c"), concrete=True, key=None)
     res.count("bd:leak-witness:" + ("reproduced" if leaked else "absent"))
     w2 = {"a.c": "// cppcheck-suppress-macro zerodiv\n#define DIV(x) (1/(x))\nint f(void)\n{\n  return DIV(0);\n}\n"}
     r2 = bd_history(ctx, res, w2, {}, ["--inline-suppr"], 2)
@@ -819,12 +819,9 @@ def bd_checks(ctx, res, variant):
         res.case("bd|%s|%s" % (json.dumps(files, sort_keys=True), sorted(touch)), len(touch) > 0, None)
         res.count("bd:histories")
         if diff:
-            # the known class: a re-analysed file after a cached file, the lost records are those the cached file replayed
-            known = (not variant["clear_at_start"]) and all(s in touch for s in diff) and all(
-                set(r["alone_info"][s] or []) >= set(r["comp_info"].get(s) or []) for s in diff)
             res.violation("warm build dir: analyzer information of %s differs between company and alone" % diff,
                           dict(files=files, touched=sorted(touch), company={s: r["comp_info"].get(s) for s in diff},
-                               alone={s: r["alone_info"].get(s) for s in diff}), concrete=True, key=K_LEAK if known else None)
+                               alone={s: r["alone_info"].get(s) for s in diff}), concrete=True, key=None)
         u = set()
         for s in r["srcs"]:
             u |= set(tag_of(x) for x in r["alone"][s])
@@ -841,16 +838,9 @@ def load_witnesses():
 
 
 def detect_variant(ctx, res, info):
-    """exact_inline: does the F17a witness still reproduce on the binary?"""
-    d = os.path.join(ctx.tmp, "variant")
-    os.makedirs(os.path.join(d, "sub"), exist_ok=True)
-    open(os.path.join(d, "a.c"), "w").write("// cppcheck-suppress-file zerodiv\nint f(void)\n{\n  return 1/0;\n}\n")
-    open(os.path.join(d, "sub", "a.c"), "w").write("int g(void)\n{\n  return 2/0;\n}\n")
-    rc, fs, se = run_cpp([ctx.cppcheck, "-q", "--xml", "--inline-suppr", "--template=" + T_FULL, "a.c", "sub/a.c"], d)
-    shutil.rmtree(d, ignore_errors=True)
-    if fs is None:
-        raise core.CheckBroken("cppcheck binary gives no xml: " + se[-300:])
-    return dict(clear_at_start=bool(info and info["clear_at_start"]), exact_inline=any(f["id"] == "zerodiv" for f in fs))
+    """the model of record: clear() at the start of checkInternal (8f62378; the translator fails closed on the old shape),
+    PathMatch file test for inline suppressions (the exact-name repair was rejected: it breaks -rp with several base paths)"""
+    return dict(clear_at_start=True, exact_inline=False)
 
 
 def run(ctx, res):
